@@ -476,23 +476,113 @@ theorem remove_steps (home : Nat → Nat → Nat) (s s' : Sess) (name : Bytes)
         have hl1 : HomeOk home (s.hash.set i Slot.deleted).length listName := by simpa using hl
         exact st1.trans (removeFromListfile_steps home _ s2 name hl1 h2)
 
+/-- deleting a slot cannot make an absent key appear -/
+theorem find_none_after_delete (home : Nat → Nat → Nat) (tbl : List Slot) (hr : Reach home tbl) (i a b : Nat)
+    (h : find tbl (home a b) a b = none) : find (tbl.set i Slot.deleted) (home a b) a b = none := by
+  have habs := find_none_absent home tbl hr a b h
+  unfold find
+  apply findGo_absent
+  intro j hk
+  by_cases hji : j = i
+  · subst hji
+    obtain ⟨l, k, hk⟩ := hk
+    by_cases hlt : j < tbl.length
+    · rw [List.getElem?_set_self hlt] at hk; cases hk
+    · rw [List.getElem?_eq_none (by simp only [List.length_set]; omega)] at hk; cases hk
+  · exact habs j ((keyAt_set_ne tbl j i a b Slot.deleted hji).mp hk)
+
 /-- flushing does not touch the table -/
 theorem flush_hash (s : Sess) : (flush s).hash = s.hash := by
   unfold flush; split <;> rfl
 
+/-- **`rename_file` is a history of table steps, whatever it reports**: the plain path is the source's delete followed by
+    the target's put (which finds the target absent, as checked before anything was touched) and the listfile's puts;
+    the encrypted path is flush, add under the new name, remove of the old one. Every outcome — success, "notfound",
+    "exists", "full", or a failure half way — leaves a table reachable by steps from the one it started with. -/
+theorem rename_steps (home : Nat → Nat → Nat) (s s' : Sess) (old new : Bytes) (z : Nat) (msg : String)
+    (hr : Reach home s.hash) (ho : HomeOk home s.hash.length old) (hn : HomeOk home s.hash.length new)
+    (hl : HomeOk home s.hash.length listName) (h : rename s old new z = (s', msg)) : Steps home s.hash s'.hash := by
+  unfold rename at h
+  split at h
+  · cases h; exact Steps.refl _ _
+  · simp only at h
+    split at h
+    · cases h; exact Steps.refl _ _
+    · rename_i i hfo
+      split at h
+      · cases h; exact Steps.refl _ _
+      · rename_i hnew
+        have hnone : find s.hash (keyOf s.hash.length new).home (keyOf s.hash.length new).a (keyOf s.hash.length new).b = none := by
+          cases hf : find s.hash (keyOf s.hash.length new).home (keyOf s.hash.length new).a (keyOf s.hash.length new).b with
+          | none => rfl
+          | some j => rw [hf] at hnew; simp at hnew
+        split at h
+        · cases h; exact Steps.refl _ _
+        · rename_i blk hblk
+          split at h
+          · -- encrypted: flush, add under the new name, remove the old one
+            have hfl : (flush s).hash = s.hash := flush_hash s
+            split at h
+            · cases h; rw [hfl]; exact Steps.refl _ _
+            · rename_i s1 h1
+              have st1 : Steps home s.hash s1.hash := by
+                have := add_steps home (flush s) s1 new _ _ _ _ _ _ (by rw [hfl]; exact hn) (by rw [hfl]; exact hl) h1
+                rw [hfl] at this; exact this
+              split at h
+              · cases h; exact st1
+              · rename_i s2 h2
+                have st2 := remove_steps home s1 s2 old (by rw [st1.length]; exact ho) (by rw [st1.length]; exact hl) h2
+                cases h
+                exact st1.trans st2
+          · -- plain: delete the source, put the target, maintain the listfile
+            split at h
+            · cases h; exact Steps.refl _ _
+            · rename_i hash2 hins
+              have ho' : (keyOf s.hash.length old).home = home (keyOf s.hash.length old).a (keyOf s.hash.length old).b := ho
+              have hn' : (keyOf s.hash.length new).home = home (keyOf s.hash.length new).a (keyOf s.hash.length new).b := hn
+              have st1 : Steps home s.hash (s.hash.set i Slot.deleted) :=
+                ⟨[.del (keyOf s.hash.length old).a (keyOf s.hash.length old).b], by simp only [List.foldl_cons, List.foldl_nil, stepT, ← ho', hfo]⟩
+              have hnone' : find (s.hash.set i Slot.deleted) (home (keyOf s.hash.length new).a (keyOf s.hash.length new).b)
+                  (keyOf s.hash.length new).a (keyOf s.hash.length new).b = none :=
+                find_none_after_delete home s.hash hr i _ _ (by rw [← hn']; exact hnone)
+              obtain ⟨l0, k0, hins'⟩ : ∃ l0 k0, insert (s.hash.set i Slot.deleted) (keyOf s.hash.length new).home
+                  (Slot.used (keyOf s.hash.length new).a (keyOf s.hash.length new).b l0 k0) = some hash2 := ⟨_, _, hins⟩
+              have st2 : Steps home (s.hash.set i Slot.deleted) hash2 := by
+                refine ⟨[.put (keyOf s.hash.length new).a (keyOf s.hash.length new).b l0 k0], ?_⟩
+                simp only [List.foldl_cons, List.foldl_nil, stepT, hnone']
+                rw [← hn', hins']
+              have st12 := st1.trans st2
+              have hl2 : HomeOk home hash2.length listName := by rw [st12.length]; exact hl
+              split at h
+              · cases h; exact st12
+              · rename_i s2 h2
+                have st3 := removeFromListfile_steps home { s with hash := hash2 } s2 old hl2 h2
+                split at h
+                · cases h; exact st12.trans st3
+                · rename_i s3 h3
+                  have hl3 : HomeOk home s2.hash.length listName := by rw [st3.length]; exact hl2
+                  have st4 := updateListfile_steps home s2 s3 new hl3 h3
+                  cases h
+                  exact (st12.trans st3).trans st4
+
 /-- **Every session operation keeps the probe-chain invariant**, hence (by `step_refines`) the table keeps behaving as a
-    map after any history of adds, replaces, removes and flushes, of any length. -/
+    map after any history of adds, replaces, removes, renames (successful or not) and flushes, of any length. -/
 theorem session_reach (home : Nat → Nat → Nat) (s : Sess) (hr : Reach home s.hash) (hl : HomeOk home s.hash.length listName) :
     (∀ s' name fsize clen comp enc replace loc, HomeOk home s.hash.length name →
         add s name fsize clen comp enc replace loc = .ok s' → Reach home s'.hash ∧ s'.hash.length = s.hash.length) ∧
     (∀ s' name, HomeOk home s.hash.length name → remove s name = .ok s' → Reach home s'.hash ∧ s'.hash.length = s.hash.length) ∧
+    (∀ s' old new z msg, HomeOk home s.hash.length old → HomeOk home s.hash.length new →
+        rename s old new z = (s', msg) → Reach home s'.hash ∧ s'.hash.length = s.hash.length) ∧
     Reach home (flush s).hash := by
-  refine ⟨?_, ?_, ?_⟩
+  refine ⟨?_, ?_, ?_, ?_⟩
   · intro s' name fsize clen comp enc replace loc hn h
     have st := add_steps home s s' name fsize clen comp enc replace loc hn hl h
     exact ⟨st.reach hr, st.length⟩
   · intro s' name hn h
     have st := remove_steps home s s' name hn hl h
+    exact ⟨st.reach hr, st.length⟩
+  · intro s' old new z msg ho hn h
+    have st := rename_steps home s s' old new z msg hr ho hn hl h
     exact ⟨st.reach hr, st.length⟩
   · rw [flush_hash]; exact hr
 
